@@ -4,7 +4,10 @@
 # exit 1 if any is no longer detected.
 cd "$(dirname "$0")/.."
 miss=0
+T0=$(date +%s)
+BUDGET=${SEED_REGRESS_BUDGET_S:-0}   # stop starting new ones after this many seconds (0 = no limit)
 for d in seeded/*/; do
+  if [ "$BUDGET" -gt 0 ] && [ $(( $(date +%s) - T0 )) -gt "$BUDGET" ]; then echo "budget reached before $d"; break; fi
   id=$(basename $d)
   p=$(python3 -c "import json,sys; m=json.load(open('$d/meta.json')); print(' '.join(k for k,v in m.get('checks',{}).items() if v.get('exit')==1) or ' '.join(m.get('checks',{})))")
   [ -z "$p" ] && { echo "$id: no property recorded"; continue; }
